@@ -1260,7 +1260,12 @@ impl FseDecoder {
         let mut byte_pos = compressed_data.len(); // Start from the end for rANS
         
         // Decode symbols using advanced approach
-        let mut output = Vec::with_capacity(original_size);
+        // original_size comes from the (possibly corrupted) header: an allocation failure is an
+        // error, not an abort
+        let mut output: Vec<u8> = Vec::new();
+        output
+            .try_reserve_exact(original_size)
+            .map_err(|_| ZiporaError::out_of_memory(original_size))?;
         
         for i in 0..original_size {
             // Decode symbol first (optimal order for performance)
